@@ -10,6 +10,8 @@
 (*   H.dup    an id is returned by more than one listed version            *)
 (*   H.cur    the id whose bytes GetObject (no version id) returns,        *)
 (*            "none" (404) or "foreign" (bytes of no upload)               *)
+(*   H.dels, H.markers (optional): DeleteObject requests without version id *)
+(*            and the delete markers listed under the ids they announced    *)
 (* Every acknowledged upload of a versioned bucket is a version of its own *)
 (* that stays retrievable byte-exact; the version that existed before      *)
 (* stays; the current version is an acknowledged upload that no other      *)
@@ -19,17 +21,32 @@
 (***************************************************************************)
 EXTENDS Integers, Sequences, FiniteSets
 
+\* (DOMAIN H.puts: the uploads; H.dels, when present: the DeleteObject requests without a
+\*  version id, id -> [ok, marker (the reply announced a delete marker), inv, ret];
+\*  H.markers: the ids of the deletes whose announced version id is listed as a delete marker)
+HasDels(H) == "dels" \in DOMAIN H
 Acked(H) == {p \in DOMAIN H.puts : H.puts[p].ok}
-\* p is not followed, in real time, by another acknowledged upload
-Last(H, p) == \A q \in Acked(H) : q = p \/ ~(H.puts[p].ret < H.puts[q].inv)
+AckedDels(H) == IF HasDels(H) THEN {d \in DOMAIN H.dels : H.dels[d].ok} ELSE {}
+MarkingDels(H) == {d \in AckedDels(H) : H.dels[d].marker}
+OpRec(H, x) == IF x \in DOMAIN H.puts THEN H.puts[x] ELSE H.dels[x]
+AckedOps(H) == Acked(H) \cup AckedDels(H)
+\* x is not followed, in real time, by another acknowledged request
+Last(H, x) == \A q \in AckedOps(H) : q = x \/ ~(OpRec(H, x).ret < OpRec(H, q).inv)
 AllKept(H)  == \A p \in Acked(H) : \E i \in DOMAIN H.vers : H.vers[i] = p
 PreKept(H)  == H.pre => \E i \in DOMAIN H.vers : H.vers[i] = "v0"
-CurOK(H)    == IF Acked(H) = {} THEN H.cur = (IF H.pre THEN "v0" ELSE "none")
-               ELSE H.cur \in Acked(H) /\ Last(H, H.cur)
+\* every delete that announced a delete marker left one, listed under the announced id
+MarkersKept(H) == \A d \in MarkingDels(H) : \E i \in DOMAIN H.markers : H.markers[i] = d
+\* the current version is what a request that can be linearized last leaves: an upload its
+\* object, a delete nothing (a delete that found nothing changes nothing)
+CurOK(H)    == IF AckedOps(H) = {} THEN H.cur = (IF H.pre THEN "v0" ELSE "none")
+               ELSE \/ H.cur \in Acked(H) /\ Last(H, H.cur)
+                    \/ H.cur = "none" /\ \E d \in AckedDels(H) : Last(H, d)
+                    \/ \E d \in AckedDels(H) \ MarkingDels(H) : Last(H, d) /\ ~H.pre /\ H.cur = "none"
 Broken(H) == (IF AllKept(H) THEN {} ELSE {"acked-version-lost"})
         \cup (IF PreKept(H) THEN {} ELSE {"earlier-version-lost"})
         \cup (IF ~H.dup THEN {} ELSE {"version-listed-twice"})
         \cup (IF CurOK(H) THEN {} ELSE {"current-version-wrong"})
+        \cup (IF HasDels(H) /\ ~MarkersKept(H) THEN {"delete-marker-lost"} ELSE {})
 HistoryOK(H) == Broken(H) = {}
 
 =============================================================================
